@@ -14,9 +14,9 @@ BASE = "a"
 ARGS = ["-l", "--k=v", "./p", "a.b", "1", "x=y", "a:b", ",a", "'q r'", '"d"', "$V", "${'V'}", "@(ev)", "$(ia i)", "@$(ia i)", "> f", "2>&1", "e>o", "< g"]
 SEGFEATS = ("pipe", "bg", "env")
 OPS = ("&&", "||", "and", "or", ";")
-SIMPLER_OP = {"||": "&&", "or": "and"}
+SIMPLER_OP = {"||": "&&", "or": "&&", "and": "&&"}
 KINDS = ("if", "for", "while", "with", "try", "def")
-ONELINE_QUICK = ("if", "for")
+ONELINE_QUICK = ("if",)
 ONELINE_RICH = ("if", "for", "with", "def", "else", "try")
 POS0 = {"pre": None, "post": None, "semi": "tight", "wrap": None, "cont": None}
 
@@ -217,12 +217,13 @@ def _wraps(rich):
     out = []
     if not rich:
         for kind in KINDS:
-            for unit in ("    ", "\t"):
-                out.append(["block", kind, 1, unit, None])
+            out.append(["block", kind, 1, "    ", None])
+        for kind in ("if", "def"):
+            out.append(["block", kind, 1, "\t", None])
         for depth in (2, 3):
-            for kind in ("if", "def"):
-                for unit in ("    ", "\t"):
-                    out.append(["block", kind, depth, unit, None])
+            out.append(["block", "if", depth, "    ", None])
+            out.append(["block", "if", depth, "\t", None])
+            out.append(["block", "def", depth, "    ", None])
         out += [["oneline", k] for k in ONELINE_QUICK]
     else:
         for depth in (1, 2, 3):
@@ -283,6 +284,30 @@ def pos_label(pos):
     return ",".join(parts) or "top"
 
 
+def pos_class(chain, pos):
+    """pos_label with the continuation boundary named by its role instead of its index."""
+    lab = pos_label(dict(pos, cont=None))
+    parts = [] if lab == "top" else [lab]
+    if pos["cont"]:
+        toks = tokens(chain)
+        j = pos["cont"][0]
+        role = "before-op" if toks[j + 1][1] < 0 else "after-op" if toks[j][1] < 0 else "in-seg"
+        parts.append("cont-" + role + ("+ws" if pos["cont"][1] else ""))
+    return ",".join(parts) or "top"
+
+
+def ops_class(chain):
+    return "+".join(sorted(set(chain["ops"]))) or "1seg"
+
+
+def feature_class(chain):
+    fs = set()
+    for s in chain["segs"]:
+        fs.update(a for a in s["args"] if a != BASE)
+        fs.update(f for f in SEGFEATS if s[f])
+    return "+".join(sorted(fs)).replace(" ", "") or "-"
+
+
 def in_exec_slice(chain, pos):
     """Agreeing pairs that are executed as well: two-word segments, one deviation in words or position at most."""
     if any(len(s["args"]) != 1 for s in chain["segs"]):
@@ -326,6 +351,9 @@ def reductions(chain, pos):
         yield chain, dict(pos, wrap=["oneline", "if"])
     if pos["cont"] and pos["cont"][1]:
         yield chain, dict(pos, cont=[pos["cont"][0], ""])
+    for f in ("pre", "post"):
+        if pos[f] == "cmd":
+            yield chain, dict(pos, **{f: "py"})
     if pos["semi"] == "spaced" and ";" not in chain["ops"]:
         yield chain, dict(pos, semi="tight")
     n = len(chain["segs"])
